@@ -295,6 +295,7 @@ def run(tier: str, budget: Budget, rnd, arg) -> StreamResult:
                       {"kind": "generator", "key": key, "n": n, "seed": seed, "clause": clause, "detail": detail},
                       key=f"generator:{key}:{clause}")
 
+    first_seen = []      # (key, n, seed, values) of seed-respecting calls, re-requested at the end in another order
     stop = False
     for rnd_i in range(rounds):
         for n in ns:
@@ -336,6 +337,8 @@ def run(tier: str, budget: Budget, rnd, arg) -> StreamResult:
                     violate(key, n, seed, clause, detail)
                 if bad:
                     continue
+                if fam not in SEED_IGNORING:
+                    first_seen.append((key, n, seed, vals))
                 fv = [frac(x) for x in vals]
                 if len(set(fv)) >= 3 and G.asymmetric(fv, n):
                     res.nontrivial.add((key, n, seed))
@@ -362,6 +365,25 @@ def run(tier: str, budget: Budget, rnd, arg) -> StreamResult:
         if stop:
             res.notes.append("budget exhausted before all rounds were done")
             break
+
+    # determinism across call history: the same (key, n, seed) requested again after many other calls (other player
+    # counts, other families, in a different order) must give the identical game — a memo or module-level state that
+    # leaks between calls shows here and nowhere else
+    again = list(first_seen)
+    rnd.shuffle(again)
+    again.sort(key=lambda t: -t[1])          # larger player counts first, then the smaller ones again
+    for key, n, seed, vals in again[: (400 if tier == "quick" else 4000)]:
+        if not budget.ok() and tier == "quick" and res.distribution.get("history-recalls", 0) > 60:
+            break
+        try:
+            v4 = np.array(call(GM, key, n, np.random.default_rng(seed)).get_values())
+        except Exception as e:
+            violate(key, n, seed, "history-" + type(e).__name__, str(e)[:200])
+            continue
+        res.count("history-recalls")
+        if not np.array_equal(v4, vals):
+            violate(key, n, seed, "not-deterministic-across-history",
+                    {"first": vals.tolist()[:8], "again_after_other_calls": v4.tolist()[:8]})
 
     for b in script.diff():
         res.disagree("generator values", {k: b[k] for k in ("line", "impl", "model", "ctx")})
